@@ -6,7 +6,11 @@ stream of a real Connection that serves a canary service over harness/simnet.py.
 own message type: every handler id (valid, float/bool/complex-equal, invalid), every boxing label (incl. invalid and
 numerically-equal ones), argument tuples of any arity and type, packages that are not pairs, LOCAL_REF ids harvested
 from THIS connection, from a SECOND connection of the same process, stale (released) and forged ones, REMOTE_REF
-packages of builtin / foreign / non-text class names (so the server calls back: HANDLE_INSPECT), replies and
+packages of builtin / foreign / non-text class names (so the server calls back: HANDLE_INSPECT - which the script
+ANSWERS well-formed in a good share of sessions, with names of importable-but-not-imported canary and standard modules,
+their dotted prefixes, imported modules, builtins, so that netref.class_factory runs on peer-chosen names), identifiers
+boxed to the well-behaved peer of a SECOND real connection of the same process (who still holds them, released them,
+or closed), replies and
 exception payloads with matching / stale / never-issued sequence numbers (crafted exception tuples: canary modules,
 `os.system`, `builtins.eval`, NUL in names, hostile attribute lists), values that are not messages at all and
 payloads that do not decode.  Messages are written in bursts, so that messages arrive *while* a handler waits for
@@ -71,8 +75,9 @@ EXPLANATION = (
     "a value from a message, a table member, the root or something the environment returned earlier (touch_caps, "
     "table_growth), no pickle and no import / sys.modules lookup happens (no_pickle, no_import), every request is "
     "answered exactly once or aborted with the connection ending / the exception re-raised in the serving thread "
-    "(outcome_total), and the handler table, signatures and primitive touches of the source equal the modelled ones "
-    "(closed_world, decide). Handlers' effects on user objects are abstract (environment moves).")
+    "(outcome_total), building a proxy's class after the peer's HANDLE_INSPECT answer only looks the peer-chosen dotted "
+    "name up in sys.modules and does one getattr (classLookup: never an import; closed_world_class_factory), and the "
+    "handler table, signatures and primitive touches of the source equal the modelled ones (closed_world, decide). Handlers' effects on user objects are abstract (environment moves).")
 
 CFG_KEYS = ["allow_safe_attrs", "allow_exposed_attrs", "allow_public_attrs", "allow_all_attrs", "allow_getattr",
             "allow_setattr", "allow_delattr", "allow_pickle", "import_custom_exceptions", "instantiate_custom_exceptions",
@@ -224,7 +229,17 @@ def correspondence(ctx):
         keys_calls += len(hits["keys"])
         if "NOT-MODELLED" in got or "NO-ANSWER" in got:
             c.count("model:not-modelled-or-diverged")
-        if g != want:
+        lured = [m for m in hits.get("new_modules", []) if m in hw.CANARY_MODULES or m.split(".")[0] in hw.LURE_MODULES]
+        if cfg == "default" and (hits["imported"] or hits["imports"] or hits["pickle"] or hits["denied_attr"]
+                                 or hits["denied_call"] or hits["keys"] or lured):
+            # the canaries are independent of the recorder: under the default configuration none may ever be hit
+            c.disagreements.append(dict(
+                case=dict(kind="history", seed=ctx.seed, index=i, config=cfg, sent=desc), first_difference=-1,
+                impl=("canaries hit: imported=%r import-calls=%r pickle=%r denied-attr=%r denied-call=%r keys=%r modules=%r" % (
+                    hits["imported"][:2], hits["imports"][:2], hits["pickle"][:2], hits["denied_attr"][:2],
+                    hits["denied_call"][:2], hits["keys"][:2], lured[:3]))[:400],
+                model="the model has no such touch under the default configuration (no_import / no_pickle / touch_policy)"))
+        elif g != want:
             we, ge = want.split(" | ")[0].split(" ; "), g.split(" | ")[0].split(" ; ")
             k = 0
             while k < min(len(we), len(ge)) and we[k] == ge[k]:
@@ -265,6 +280,23 @@ def _local_refs(pkg, depth=0):
     except Exception:  # noqa
         pass
     return out
+
+
+def _collect_names(group, named):
+    """every dotted prefix of every text that could be taken for a module path in what the peer sends"""
+    def walk(v, d):
+        if d > 8:
+            return
+        if type(v) is str:
+            parts = v.split(".")
+            if 0 < len(parts) <= 6 and all(p.isidentifier() for p in parts):
+                for k in range(1, len(parts) + 1):
+                    named.add(".".join(parts[:k]))
+        elif type(v) in (tuple, frozenset):
+            for x in v:
+                walk(x, d + 1)
+    for _kind, m in group:
+        walk(m, 0)
 
 
 LAST_SENT = []      # what the most recent oracle_session wrote, burst by burst (for the replay file)
@@ -325,8 +357,10 @@ def oracle_session(seed, index, n_bursts=None):
     mods_before = set(sys.modules)
     old = signal.signal(signal.SIGALRM, _alarm)
     rt.GUARD_DECREF = False
+    phase = r.choice(["holding", "holding", "released", "closed"])
+    named = set()                  # module names (every dotted prefix) the peer put into messages
     try:
-        with hw.Session(config={}) as s:
+        with hw.Session(config={}, second_phase=phase) as s:
             g = hw.Gen(r, s)
             boxed = []                 # every id the server ever boxed to this peer on this connection
             plan = [g.setup_burst] if r.chance(9, 10) else []
@@ -346,9 +380,20 @@ def oracle_session(seed, index, n_bursts=None):
                 msgs = maker()
                 LAST_SENT.append([(k, repr(m)[:300]) for k, m in msgs])
                 got_all = []
+                # one message at a time, except that answers (replies / exceptions) travel with the request before them:
+                # they are what the peer has ready for the server's own questions (HANDLE_INSPECT, callbacks)
+                groups = []
                 for kind, m in msgs:
+                    is_answer = kind == "v" and type(m) is tuple and len(m) == 3 and type(m[0]) is int and m[0] in (2, 3)
+                    if groups and is_answer:
+                        groups[-1].append((kind, m))
+                    else:
+                        groups.append([(kind, m)])
+                for group in groups:
                     if s.ended:
                         break
+                    kind, m = group[0]
+                    _collect_names(group, named)
                     foreign, key, refuse = None, None, None
                     if kind == "v":
                         try:
@@ -371,7 +416,7 @@ def oracle_session(seed, index, n_bursts=None):
                     before = (len(hw.HITS.keys_calls), len(hw.HITS.special))
                     signal.alarm(WATCHDOG_S)
                     try:
-                        got = s.burst([(kind, m)])
+                        got = s.burst(group)
                     except rt.Unobservable:
                         return None
                     except SessionHang:
@@ -417,9 +462,9 @@ def oracle_session(seed, index, n_bursts=None):
                 problems.append("pickle was used: %r" % (rt.PICKLE_LOG[:3],))
             if rt.IMPORT_LOG or hw.IMPORTED:
                 problems.append("an import was attempted: %r %r" % (rt.IMPORT_LOG[:3], hw.IMPORTED[:3]))
-            new = [m for m in set(sys.modules) - mods_before if m in hw.CANARY_MODULES]
+            new = [m for m in set(sys.modules) - mods_before if m in hw.CANARY_MODULES or m in named]
             if new:
-                problems.append("canary module imported: %r" % new)
+                problems.append("the process imported %r, named only by the peer" % sorted(new))
     finally:
         rt.GUARD_DECREF = True
         signal.alarm(0)
